@@ -79,7 +79,7 @@ def unit_name(u):
     return u[0] if u[1] is None else f"{u[0]}.{u[1]}"
 
 
-def shell_text(script, uname, tag, mdir, to_file=True, letter=None, extra=False):
+def shell_text(script, uname, tag, mdir, to_file=True, letter=None, extra=False, slow=False):
     """The two commands of a unit.  A script is a string of per-attempt outcomes (the last one repeats):
     S succeed, F fail (exit 3, nothing produced), O succeed but produce nothing, W produce the result and
     then fail in the second command.  "FS" = fail, then succeed; "SF" = succeed, then fail; ..."""
@@ -99,7 +99,8 @@ def shell_text(script, uname, tag, mdir, to_file=True, letter=None, extra=False)
         arms = "".join(f"{i + 1}) {table[c]};; " for i, c in enumerate(script[:-1]))
         return f"case $n in {arms}*) {table[script[-1]]};; esac"
 
-    c0 = f"echo x >> {cnt}; n=$(wc -l < {cnt}); n=$((n+0)); " + ("printf x > extra.txt; " if extra else "") + case(first)
+    # slow: the job takes long enough for jobmap's submit loop to finish before any queued job starts
+    c0 = ("sleep 0.05; " if slow else "") + f"echo x >> {cnt}; n=$(wc -l < {cnt}); n=$((n+0)); " + ("printf x > extra.txt; " if extra else "") + case(first)
     c1 = f"n=$(wc -l < {cnt}); n=$((n+0)); " + case(second)
     return c0, c1
 
@@ -111,6 +112,14 @@ DECL_LABEL = {"file": "return_files=tuple", "none": "return_files=None", "empty"
 JOB_OF = {"file": "calc", "none": "calc_out", "empty": "calc_nof"}
 
 
+# jobmap keywords: the value every other history uses / the alternatives explored by the option histories.
+# (job, source, destination, kwargs, strict_hash are dimensions of their own.)
+BASE_OPTS = {"progress": False, "verbose": False, "n_workers": 1, "scratch": "given", "cache": "given", "shared": "none", "log_level": "warning", "args": "none"}
+ALT_OPTS = {"progress": [True], "verbose": [True], "n_workers": [2, None], "scratch": ["none"], "cache": ["none"], "shared": ["given"], "log_level": ["debug"], "args": ["empty-tuple"]}
+OPT_OF_KEYWORD = {"progress": "progress", "verbose": "verbose", "n_workers": "n_workers", "scratch_dir": "scratch", "cache_dir": "cache", "shared_dir": "shared", "log_level": "log_level", "args": "args"}
+OTHER_KEYWORDS = {"job", "source", "destination", "kwargs", "strict_hash"}
+
+
 # "the input differs in field F only": variants of one JobInput that differ from the base input in exactly one field
 VARY = ("jid", "commands", "files-name", "files-content", "return_files", "envars-add", "envars-value", "envars-remove", "timeout")
 VARY_FIELD = {"jid": "jid", "commands": "commands", "files-name": "files", "files-content": "files", "return_files": "return_files", "envars-add": "envars", "envars-value": "envars", "envars-remove": "envars", "timeout": "timeout"}
@@ -119,7 +128,7 @@ VARY_VISIBLE = {"commands": None, "files-content": '"$(cat note.txt)"', "envars-
 
 
 def make_driver_class():
-    def prep(self, M, tag="A", mdir=None, vary=None, alt=False):
+    def prep(self, M, tag="A", mdir=None, vary=None, alt=False, slow=False):
         u = unit_of(M)
         if vary is not None:
             un = unit_name(u)
@@ -143,7 +152,7 @@ def make_driver_class():
                 envars=env,
                 timeout=60.0 if vary == "timeout" and alt else None,
             )
-        c0, c1 = shell_text(PLAN[u], unit_name(u), tag, mdir, to_file=bool(self.return_files))
+        c0, c1 = shell_text(PLAN[u], unit_name(u), tag, mdir, to_file=bool(self.return_files), slow=slow)
         return JobInput(
             unit_name(u),
             commands=[
@@ -204,8 +213,20 @@ class _Proc:
         return f"_Proc(returncode={self.returncode})"
 
 
+import threading as _threading
+
+_SEAM_LOCK = _threading.Lock()
+
+
 def _run_local_inproc(ifn, cwd, odir, sdir):
-    """Same contract as molli.pipeline.job._run_local, without the interpreter start."""
+    """Same contract as molli.pipeline.job._run_local, without the interpreter start.  The in-process runner
+    changes process-wide state (cwd, argv): with n_workers > 1 the executions are serialised (the worker threads,
+    their start order and what each one was asked to run are jobmap's)."""
+    with _SEAM_LOCK:
+        return _run_local_inproc_locked(ifn, cwd, odir, sdir)
+
+
+def _run_local_inproc_locked(ifn, cwd, odir, sdir):
     old_argv = sys.argv
     cwd0 = os.getcwd()
     sys.argv = ["_molli_run", str(ifn), "-o", Path(odir).as_posix(), "-s", Path(sdir).as_posix()]
@@ -294,7 +315,13 @@ class World:
         elif any(not k.isalnum() for k in cfg["keys"]):
             self.label += ",keys=dash_underscore"
         self.keys = list(cfg["keys"])
-        self.nconf = 2 if self.kind == "vector" else None
+        self.nconf = int(cfg.get("nconf", 2)) if self.kind == "vector" else None
+        if self.nconf and self.nconf > 2:
+            self.label += ",many-subjobs"
+        self.opts = dict(cfg.get("opts") or {})
+        nonbase = {k: v for k, v in sorted(self.opts.items()) if BASE_OPTS.get(k, "?") != v}
+        if nonbase:
+            self.label += ",options[" + ",".join(f"{k}={v}" for k, v in nonbase.items()) + "]"
         self.root = root
         self.w = root / "w"
         self.real_runner = real_runner
@@ -312,6 +339,10 @@ class World:
 
     @property
     def cache_dir(self):
+        if self.opts.get("cache") == "none":
+            # jobmap's default: <stem of the source library>.<job name> under the caller's cwd (the harness sits in self.w)
+            jname = JOB_OF[self.decl] + ("" if self.kind == "single" else "_ens")
+            return self.w / f"{self.src_path.stem}.{jname}"
         return self.w / "cache"
 
     @property
@@ -513,16 +544,32 @@ class World:
         old_handler = signal.signal(signal.SIGALRM, _on_alarm)
         signal.alarm(JOBMAP_TIMEOUT)
         cwd0 = os.getcwd()
+        o = self.opts
+        kw = {"cache_dir": self.cache_dir, "scratch_dir": self.w / "scratch", "n_workers": o.get("n_workers", 1)}
+        if o.get("scratch") == "none":
+            del kw["scratch_dir"]
+        if o.get("cache") == "none":
+            del kw["cache_dir"]
+            os.chdir(self.w)
+        for name in ("progress", "verbose", "log_level"):
+            if name in o:
+                kw[name] = o[name]
+        if o.get("shared") == "given":
+            kw["shared_dir"] = self.w / "shared"
+            (self.w / "shared").mkdir(exist_ok=True)
+        if o.get("args") == "empty-tuple":
+            kw["args"] = ()
+        jkw = {"tag": m.tag, "mdir": str(self.mdir)} if not self.vary else {"mdir": str(self.mdir), "vary": self.vary, "alt": m.tag == TAGS[1]}
+        if o:
+            jkw["slow"] = True
         try:
             with contextlib.redirect_stderr(sink), contextlib.redirect_stdout(sink):
                 jobmap(
                     job,
                     source,
                     dest,
-                    cache_dir=self.cache_dir,
-                    scratch_dir=self.w / "scratch",
-                    n_workers=1,
-                    kwargs={"tag": m.tag, "mdir": str(self.mdir)} if not self.vary else {"mdir": str(self.mdir), "vary": self.vary, "alt": m.tag == TAGS[1]},
+                    kwargs=jkw,
+                    **kw,
                     **({} if self.strict else {"strict_hash": False}),
                 )
         except _Alarm:
@@ -820,7 +867,7 @@ def rot(lst, seed):
     return lst[r:] + lst[:r]
 
 
-def configs(kind, keys, unit_plans, decl="file", strict=True, foreign_opts=(False, True), prepop=True, vary=None):
+def configs(kind, keys, unit_plans, decl="file", strict=True, foreign_opts=(False, True), prepop=True, vary=None, nconf=None, opts=None, only_actions=None):
     """Every initial configuration: per key either 'already in the destination' or a plan for its units
     (unit_plans: one list of plans for all keys, or a dict key -> list); x foreign key present or not."""
     per_key = [(["DEST"] if prepop else []) + list(unit_plans[k] if isinstance(unit_plans, dict) else unit_plans) for k in keys]
@@ -832,10 +879,17 @@ def configs(kind, keys, unit_plans, decl="file", strict=True, foreign_opts=(Fals
             for k, c in zip(keys, combo):
                 if c == "DEST":
                     pre.append(k)
-                    plan[k] = ["S"] * (1 if kind == "single" else 2)
+                    plan[k] = ["S"] * (1 if kind == "single" else (nconf or 2))
                 else:
                     plan[k] = list(c)
-            out.append({"kind": kind, "decl": decl, "strict": strict, "vary": vary, "keys": list(keys), "plan": plan, "prepop": pre, "foreign": foreign})
+            extra = {}
+            if nconf:
+                extra["nconf"] = nconf
+            if opts:
+                extra["opts"] = dict(opts)
+            if only_actions:
+                extra["only_actions"] = [list(a) for a in only_actions]
+            out.append({**extra, "kind": kind, "decl": decl, "strict": strict, "vary": vary, "keys": list(keys), "plan": plan, "prepop": pre, "foreign": foreign})
     return out
 
 
@@ -858,7 +912,7 @@ def explore(ctx, cfg, depth, corrupt_kinds, real_runner=False, seen=None):
             return
         key = world.model.canon()
         m = world.model
-        c = (cfg["kind"], cfg.get("decl", "file"), cfg.get("strict", True), cfg.get("vary"), tuple(cfg["keys"]), tuple(sorted((k, tuple(v)) for k, v in cfg["plan"].items())), tuple(cfg["prepop"]), cfg["foreign"], m.canon())
+        c = (cfg["kind"], cfg.get("decl", "file"), cfg.get("strict", True), cfg.get("vary"), cfg.get("nconf"), tuple(sorted((cfg.get("opts") or {}).items(), key=repr)), tuple(cfg["keys"]), tuple(sorted((k, tuple(v)) for k, v in cfg["plan"].items())), tuple(cfg["prepop"]), cfg["foreign"], m.canon())
         ctx.state_keys.add(hashlib.blake2b(repr(c).encode(), digest_size=10).digest())
         ctx.outcome(hashlib.sha1(repr(world.last_obs).encode()).hexdigest()[:12])
         if any(v for v in world.last_obs[0] if v[1]) or level > 1:
@@ -872,7 +926,10 @@ def explore(ctx, cfg, depth, corrupt_kinds, real_runner=False, seen=None):
             return
         seen[key] = level
         snap = world.save(f"L{level}")
-        for act in world.actions(corrupt_kinds):
+        acts = world.actions(corrupt_kinds)
+        if cfg.get("only_actions"):
+            acts = [(tuple(a[0]), a[1], a[2]) for a in cfg["only_actions"]]
+        for act in acts:
             world.restore(snap)
             world.apply(act)
             node(hist + [act], level + 1)
@@ -888,7 +945,26 @@ def _jsonable_act(a):
 def _run_part(sub, part):
     depth, corrupt_kinds, real_runner, cfgs = part
     n = 0
-    for cfg in cfgs:
+    for j, cfg in enumerate(cfgs):
+        if cfg.get("opts"):
+            # run into a private context first: a failing option case is reduced to the smallest set of non-default
+            # jobmap keywords that still fails, so that the signature names the cause
+            tmp = sub.sub(900 + j % 50)
+            k = explore(tmp, cfg, depth, corrupt_kinds, real_runner=real_runner)
+            if not tmp.violations:
+                sub.merge(tmp.export())
+                n += k
+                continue
+            cur = cfg
+            for name in sorted(cfg["opts"]):
+                if cur["opts"].get(name, BASE_OPTS[name]) == BASE_OPTS[name]:
+                    continue
+                trial = dict(cur, opts={**cur["opts"], name: BASE_OPTS[name]})
+                t2 = sub.sub(950 + j % 50)
+                explore(t2, trial, depth, corrupt_kinds, real_runner=real_runner)
+                if t2.violations:
+                    cur = trial
+            cfg = cur
         n += explore(sub, cfg, depth, corrupt_kinds, real_runner=real_runner)
     sub.add_note("jobmap_runs_real_runner" if real_runner else "jobmap_runs_inprocess", n)
 
@@ -911,6 +987,61 @@ KEYSETS = {
     "ext": ["r.out", "r.inp"],
     "dash": ["m-1_a", "m-1_b"],
 }
+
+
+def option_configs(thorough):
+    """jobmap keyword dimension: progress x n_workers x verbose in full, every other keyword singly (x n_workers),
+    over item counts {1, 2, n_workers, n_workers+1, 2*n_workers+1}; two runs after the first: same input / changed
+    input into a fresh destination."""
+    acts = [(("none",), False, True), (("none",), True, True)]
+
+    def mk(opts, nitems, plan=("S",), kind="single"):
+        keys = [f"k{i}" for i in range(nitems)]
+        return configs(kind, keys, [plan], foreign_opts=(False,), prepop=False, opts=opts, only_actions=acts)
+
+    out = []
+    counts = {1: (1, 2, 3), 2: (1, 2, 3, 5), None: (1, 2, 5)}
+    for progress in (False, True):
+        for nw in (1, 2, None):
+            for verbose in (False, True):
+                for c in counts[nw]:
+                    out += mk({"progress": progress, "n_workers": nw, "verbose": verbose}, c)
+    for name in ("scratch", "cache", "shared", "log_level", "args"):
+        for nw in (1, 2):
+            for c in (2, 5):
+                out += mk({name: ALT_OPTS[name][0], "n_workers": nw}, c)
+    # vectorised: sub-jobs outnumber the workers as well
+    for progress in (False, True):
+        for nw in (2, None):
+            out += mk({"progress": progress, "n_workers": nw}, 2, plan=("S", "S"), kind="vector")
+            if thorough:
+                out += mk({"progress": progress, "n_workers": nw}, 3, plan=("S", "F"), kind="vector")
+    if thorough:
+        for progress in (False, True):
+            for nw in (2, None):
+                for c in (3, 5):
+                    out += mk({"progress": progress, "n_workers": nw}, c, plan=("FS",))
+                    out += mk({"progress": progress, "n_workers": nw, "cache": "none", "scratch": "none", "log_level": "debug"}, c)
+    return out
+
+
+def subjob_configs(thorough):
+    """Vectorised items with many sub-jobs (the payload of a sub-job carries its own index; the stored results are
+    compared in order), and keys that are prefixes of each other with dots / digits in one run."""
+    acts = [(("none",), False, True), (("none",), True, True)]
+    NF = (False,)
+    out = []
+    for n in (10, 11, 12, 101):
+        out += configs("vector", ["K"], [("S",) * n], foreign_opts=NF, prepop=False, nconf=n, only_actions=acts)
+    pre = ["K", "K.1", "K1"]
+    out += configs("vector", pre, [("S",) * 11], foreign_opts=NF, prepop=False, nconf=11, only_actions=acts)
+    out += configs("vector", pre, [("S", "S"), ("F", "S")], foreign_opts=NF, prepop=False, only_actions=acts + [(("none",), False, False)])
+    out += configs("single", pre, [("S",), ("F",)], foreign_opts=NF, prepop=False, only_actions=acts + [(("none",), False, False)])
+    if thorough:
+        out += configs("vector", ["K"], [("S",) * 57 + ("F",) + ("S",) * 43, ("S",) * 10 + ("FS",) + ("S",) * 90], foreign_opts=NF, prepop=False, nconf=101, only_actions=acts + [(("none",), False, False)])
+        out += configs("vector", ["K", "K.1"], [("S",) * 12, ("S",) * 11 + ("W",)], foreign_opts=NF, nconf=12, only_actions=acts + [(("none",), False, False)])
+        out += configs("vector", ["K"], [("S",) * 11], "none", foreign_opts=NF, prepop=False, nconf=11, only_actions=acts)
+    return out
 
 
 # vectorised plans of the quick tier: each scripted outcome once, on either conformer
@@ -943,7 +1074,8 @@ def run(ctx):
         "what a FAILED execution leaves in the cache (its own output, nothing, or the previous output untouched) is not constrained; the model follows what is found there for later reuse decisions - the RESULT of the run is always that of the run's own execution: a failed item is absent from the destination, never served from an earlier run's output",
         "a cached output is reused iff the current JobInput equals the one it was computed from in EVERY field (jid, commands, files, return_files, envars, timeout: the unchanged code hashes attrs.asdict of the whole input; no field is deliberately ignored)",
         "a command terminated by a signal has failed like one that exits non-zero (the runner reports a negative return code): the item is not stored, whatever it wrote before, and is executed again in the next run",
-        "n_workers=1; the destination is a plain Collection[bytes] on the Ukv backend, the sources are a MoleculeLibrary / ConformerLibrary",
+        "jobmap keywords: every keyword of jobmap's signature is exercised (progress, verbose, n_workers 1/2/default, scratch_dir / cache_dir / shared_dir given or not, log_level, args); the scripted commands of these histories sleep 50 ms so that jobmap's submit loop has finished before a queued job starts; every submitted item must be executed exactly once. The in-process runner is serialised by a lock when n_workers > 1 (it changes the process cwd); thread start order and what each task runs remain jobmap's",
+        "n_workers=1 in every history outside the option histories; the destination is a plain Collection[bytes] on the Ukv backend, the sources are a MoleculeLibrary / ConformerLibrary",
     ]
     import attrs as _attrs
 
@@ -951,8 +1083,24 @@ def run(ctx):
     if unknown:
         raise HarnessError(f"JobInput has fields that the 'input differs in one field only' histories do not vary: {unknown} - extend VARY in mc/props/c18.py")
     ctx.bound["input_differs_in_one_field"] = {"fields_of_JobInput": [f.name for f in _attrs.fields(JobInput)], "variants": list(VARY)}
+    import inspect as _inspect
+
+    kws = list(_inspect.signature(jobmap).parameters)
+    unknown_kw = [k for k in kws if k not in OPT_OF_KEYWORD and k not in OTHER_KEYWORDS]
+    if unknown_kw:
+        raise HarnessError(f"jobmap accepts keywords that the option histories do not exercise: {unknown_kw} - extend BASE_OPTS/ALT_OPTS in mc/props/c18.py")
+    ctx.bound["jobmap_keywords"] = {"signature": kws, "alternatives": {k: [repr(x) for x in v] for k, v in ALT_OPTS.items()}, "item_counts": "1, 2, n_workers, n_workers+1, 2*n_workers+1"}
+    ctx.bound["sub_jobs_per_item"] = [2, 10, 11, 12, 101]
     parts = []
     nproc = 16 if ctx.thorough else 8
+    oc = option_configs(ctx.thorough)
+    parts += [(2, ["truncate"], False, c) for c in chunk(oc, nproc * 3)]
+    sc = subjob_configs(ctx.thorough)
+    parts += [(2, ["truncate"], False, [c]) for c in sc]
+    if ctx.thorough:
+        # the option cases where jobs outnumber the workers, and the 11 sub-job item, through the real subprocess runner too
+        parts += [(1, ["truncate"], True, [c]) for c in oc if c["kind"] == "single" and len(c["keys"]) == 5 and c["opts"].get("n_workers") == 2 and set(c["opts"]) == {"progress", "n_workers", "verbose"} and not c["opts"]["verbose"]]
+        parts += [(1, ["truncate"], True, [c]) for c in sc if c.get("nconf") == 11 and c["keys"] == ["K"] and c["decl"] == "file"]
     k2, k3 = ["k0", "k1"], ["k0", "k1", "k2"]
     T = ["truncate"]
     if not ctx.thorough:
